@@ -291,6 +291,65 @@ pub fn render_gremlin(q: &J, variant: usize) -> Option<(J, String)> {
     Some((q2, s))
 }
 
+/// GraphQL rendering: `{ a(k: 1, filter: {s_ne: "b"}) { k s T(filter: {k_gt: 0}) { k } } }` - a root field per label, scalar fields
+/// for properties, a nested field per outgoing edge type; arguments are a conjunction of comparisons on that node.
+pub fn render_graphql(q: &J, variant: usize) -> Option<(J, String)> {
+    fn conj<'a>(e: &'a J, out: &mut Vec<&'a J>) -> bool {
+        match e["op"].as_str().unwrap_or("") {
+            "true" => true,
+            "and" => conj(&e["a"], out) && conj(&e["b"], out),
+            "cmp" => { if e["a"]["op"] == "prop" && e["b"]["op"] == "const" { out.push(e); true } else { false } }
+            _ => false,
+        }
+    }
+    if q.get("opt").is_some() { return None; }
+    let path = q["path"].as_array()?;
+    if path.len() != 1 && path.len() != 3 { return None; }
+    if path.iter().any(|p| p.get("min").is_some()) { return None; }
+    let l0 = path[0]["labels"].as_array()?;
+    if l0.len() != 1 { return None; }
+    if path.len() == 3 && (path[1]["dir"] != "out" || path[1]["types"].as_array()?.len() != 1 || !path[2]["labels"].as_array()?.is_empty()) { return None; }
+    let mut cmps = vec![];
+    if !conj(&q["where"], &mut cmps) { return None; }
+    let args = |var: &str| -> Option<String> {
+        let mut direct = vec![];
+        let mut filt = vec![];
+        let mut seen = std::collections::HashSet::new();
+        for c in cmps.iter().filter(|c| c["a"]["var"] == var) {
+            let v = match c["b"]["v"]["t"].as_str()? { "int" => c["b"]["v"]["v"].to_string(), "str" => format!("\"{}\"", c["b"]["v"]["v"].as_str()?), _ => return None };
+            let key = c["a"]["key"].as_str()?;
+            let f = c["f"].as_str()?;
+            if !seen.insert(format!("{key}{f}")) { return None; }
+            match f { "=" => direct.push(format!("{key}: {v}")), "<>" => filt.push(format!("{key}_ne: {v}")), "<" => filt.push(format!("{key}_lt: {v}")), "<=" => filt.push(format!("{key}_lte: {v}")), ">" => filt.push(format!("{key}_gt: {v}")), _ => filt.push(format!("{key}_gte: {v}")) }
+        }
+        if !filt.is_empty() { direct.push(format!("filter: {{{}}}", filt.join(", "))); }
+        Some(if direct.is_empty() { String::new() } else { format!("({})", direct.join(", ")) })
+    };
+    // every comparison must be on a node of the path
+    if cmps.iter().any(|c| !path.iter().step_by(2).any(|p| p["var"] == c["a"]["var"])) { return None; }
+    let (v0, keys0): (&str, Vec<&str>) = (path[0]["var"].as_str()?, match variant % 3 { 0 => vec!["k"], 1 => vec!["k", "s"], _ => vec!["u"] });
+    let mut ret: Vec<J> = keys0.iter().map(|k| json!({"e": {"op": "prop", "var": v0, "key": k}})).collect();
+    let mut body = keys0.join(" ");
+    if path.len() == 3 {
+        let v1 = path[2]["var"].as_str()?;
+        let keys1: Vec<&str> = if variant % 2 == 0 { vec!["k"] } else { vec!["u", "s"] };
+        body += &format!(" {}{} {{ {} }}", path[1]["types"][0].as_str()?, args(v1)?, keys1.join(" "));
+        ret.extend(keys1.iter().map(|k| json!({"e": {"op": "prop", "var": v1, "key": k}})));
+    }
+    let root = l0[0].as_str()?.to_lowercase();
+    let text = format!("{{ {}{} {{ {} }} }}", root, args(v0)?, body);
+    let q2 = json!({"path": q["path"], "where": q["where"], "distinct": false, "order": [], "skip": 0, "limit": -1, "ret": ret});
+    Some((q2, text))
+}
+
+pub fn exec_graphql_case(g: &Graph, q: &J, variant: usize, cid: usize, out: &mut Out) {
+    let Some((q2, text)) = render_graphql(q, variant) else { return };
+    let sess = g.db.session();
+    let r = crate::util::catch(std::panic::AssertUnwindSafe(|| sess.execute_graphql(&text)));
+    let res = match r { Ok(Ok(res)) => Ok(res.rows), Ok(Err(e)) => Err(e.to_string()), Err(p) => Err(format!("panic {p}")) };
+    emit_case(out, cid, "graphql", &text, &g.json, &q2, json!({}), res);
+}
+
 pub fn exec_gremlin_case(g: &Graph, q: &J, variant: usize, cid: usize, out: &mut Out) {
     let Some((q2, text)) = render_gremlin(q, variant) else { return };
     let sess = g.db.session();
@@ -447,6 +506,8 @@ pub fn main(o: &Opts) -> i32 {
                     if o.flag("gremlin") {
                         cid += 1;
                         exec_gremlin_case(&g, &q, cid, cid, &mut out);
+                        cid += 1;
+                        exec_graphql_case(&g, &q, cid, cid, &mut out);
                     }
                 }
             }
